@@ -13,18 +13,6 @@ def SortedBook (file : List UInt8) : Prop :=
 
 /-! ## reads -/
 
-theorem readEntry_in_range (file : List UInt8) (i : Nat) (h : i < numEntries file) :
-    ((file.drop (16 * i)).take 16).length = 16 ∧
-    readEntry file (i : Int) = deSerialize ((file.drop (16 * i)).take 16) := by
-  have hl : ((file.drop (16 * i)).take 16).length = 16 := by
-    simp only [List.length_take, List.length_drop]
-    unfold numEntries at h
-    omega
-  refine ⟨hl, ?_⟩
-  unfold readEntry
-  have : ¬ ((i : Int) < 0) := by omega
-  simp only [this, if_false, Int.toNat_natCast, hl, if_true]
-
 theorem readEntry_weight_lt (file : List UInt8) (e : Int) : (readEntry file e).weight < 65536 := by
   unfold readEntry
   split
